@@ -257,6 +257,29 @@ example : (parseText "((a))+b\n*c   -(d ^ 2??e)\n and\t!g! !=true").map exprToSo
     ((parseText "((a))+b\n*c   -(d ^ 2??e)\n and\t!g! !=true").map (formatExpr · (some 10))).bind
         (fun out => (parseText out).map (formatExpr · (some 10))) =
       some (formatExpr x1 (some 10)) := by decide +kernel
+/-- string literals (one with a line break inside: multi-line at every width) -/
+private abbrev x3 : Expr :=
+  .bin .add (.call ig [.str "a b", .str "say \"hi\"\nbye"]) (.str "it's")
+example : Frag x3 := by decide +kernel
+example : (parseText (formatExpr x3 (some 10))).map (formatExpr · (some 10)) =
+    some (formatExpr x3 (some 10)) := format_parse_format x3 (by decide +kernel) 10
+example :
+    (parseText (formatExpr x3 (some 10))).map (formatExpr · (some 80)) = some (formatExpr x3 (some 80)) ∧
+    formatExpr x3 (some 80) = "g(\n  \"a b\",\n  'say \"hi\"\nbye',\n)\n  + \"it's\"" := by
+  decide +kernel
+/-- record literals -/
+private abbrev x4 : Expr :=
+  .record [.mk [] (.static "a") (.bin .add ia ib) none, .mk [] (.static "k 2") (.str "v") none,
+    .mk [] (.dyn ic) (.record []) none, .mk [] (.short "d") .null none,
+    .mk [] (.spread (.spread ie)) .null none]
+example : Frag x4 := by decide +kernel
+example : (parseText (formatExpr x4 (some 10))).map (formatExpr · (some 10)) =
+    some (formatExpr x4 (some 10)) := format_parse_format x4 (by decide +kernel) 10
+example :
+    (parseText (formatExpr x4 (some 10))).map (formatExpr · (some 80)) = some (formatExpr x4 (some 80)) ∧
+    formatExpr x4 (some 80) = "{a: a + b, \"k 2\": \"v\", [c]: {}, d, ...e}" ∧
+    formatExpr x4 (some 10) = "{\n  a: a + b,\n  \"k 2\": \"v\",\n  [c]: {},\n  d,\n  ...e,\n}" := by
+  decide +kernel
 end text_examples
 
 end Blots.C08
